@@ -1218,8 +1218,7 @@ async def register_data(
 def remap_path(
     path_processor: ModuleType, path: str, old_dir: str, new_dir: str
 ) -> str:
-    if ":/" in path:
-        scheme = urllib.parse.urlsplit(path).scheme
+    if ":/" in path and (scheme := urllib.parse.urlsplit(path).scheme):
         if scheme == "file":
             return "file://{}".format(
                 urllib.parse.quote(
